@@ -789,7 +789,7 @@ fn err_class(e: &Error) -> String {
     }
 }
 
-fn run_case(c: &Case) -> String {
+fn run_case(c: &Case, hang_ms: u64) -> String {
     let net = Net::reliable();
     let crypto = test_only_crypto();
     // short MRP intervals: an abandoned exchange is noticed in tens of milliseconds
@@ -922,7 +922,7 @@ fn run_case(c: &Case) -> String {
         match select3(
             core::pin::pin!(device),
             core::pin::pin!(client),
-            core::pin::pin!(Timer::after(Duration::from_secs(6))),
+            core::pin::pin!(Timer::after(Duration::from_millis(hang_ms))),
         )
         .await
         {
@@ -965,9 +965,17 @@ fn main() {
             let text = std::fs::read_to_string(&args[2]).expect("cases file");
             let stdout = std::io::stdout();
             let mut w = stdout.lock();
+            // an answer normally takes a millisecond; a case without answer waits for the hang timer.
+            // After five such cases in a row the defect is systemic and the timer is shortened.
+            let mut hangs_in_a_row = 0;
             for line in text.lines().filter(|l| l.starts_with("R ")) {
                 let c = parse_case(line);
-                let l = run_case(&c);
+                let l = run_case(&c, if hangs_in_a_row >= 5 { 300 } else { 4000 });
+                if l.split(' ').nth(2).map(|o| o.starts_with("hang")).unwrap_or(false) {
+                    hangs_in_a_row += 1;
+                } else {
+                    hangs_in_a_row = 0;
+                }
                 writeln!(w, "{}", l).unwrap();
             }
         }
